@@ -10,8 +10,8 @@ META = dict(
                'definitions.',
     level_note='Trusted: translator, shims, CBMC; the winding-number theorem (non-zero exactly inside a simple polygon) and that the '
                'floating-point orientation test has the sign of the exact one are mathematics outside the proof; Point<2> operators are separate units.',
-    scope='Utilities::polygon_contains_point (alias wrapper), Utilities::interpolate_angle_across_zero (plume rotation angle), Point<2> operator-/dot/norm_square; extent guard of ContinentalPlate::properties (OceanicPlate/MantleLayer: same contract, run under C02)',
-    not_covered=['the winding-number kernel polygon_contains_point_implementation itself (contract and ghost definition are written - unit polygon_impl - but the proof does not finish in the time budget; it is not counted)', 'plume cross-section interpolation and ellipse membership (Plume::properties, fraction_from_ellipse_center)', 'sign-exactness of the floating-point orientation predicate'],
+    scope='Utilities::polygon_contains_point (alias wrapper), Utilities::interpolate_angle_across_zero (plume rotation angle), Utilities::fraction_from_ellipse_center (plume ellipse test), Point<2> operator-/dot/norm_square; extent guard of ContinentalPlate::properties (OceanicPlate/MantleLayer: same contract, run under C02)',
+    not_covered=['the winding-number kernel polygon_contains_point_implementation itself (contract and ghost definition are written - unit polygon_impl - but the proof does not finish in the time budget; it is not counted)', 'plume cross-section interpolation and the half-ellipsoid tip (Plume::properties: std::upper_bound over iterators is outside the translator)', 'sign-exactness of the floating-point orientation predicate'],
     enforced_elsewhere={'Point2_op_sub': 'C04/point2_sub', 'Point2_dot': 'C04/point2_dot', 'Point2_norm_square': 'C04/point2_norm_square',
                         'Utilities_polygon_contains_point_implementation': 'C04/polygon_impl'},
 )
@@ -60,6 +60,9 @@ UNITS_ALL = [
     dict(name='angle_across_zero', enforce='Utilities_interpolate_angle_across_zero', contracts='c04_polygon.c', harness='h_angle_across_zero',
          targets=[dict(tu=UT, qual='WorldBuilder::Utilities::interpolate_angle_across_zero')],
          outline_fp='all', defines=dict(DEF), expect_fail=['REACHABILITY-GUARD'], spurious_if_oracle_holds=True),
+    dict(name='ellipse_fraction', enforce='Utilities_fraction_from_ellipse_center', contracts='c04_polygon.c', harness='h_ellipse_fraction',
+         targets=[dict(tu=UT, qual='WorldBuilder::Utilities::fraction_from_ellipse_center')],
+         outline_fp='all', defines=dict(DEF), expect_fail=['REACHABILITY-GUARD']),
     dict(name='polygon_wrapper', enforce='Utilities_polygon_contains_point', contracts='c04_polygon.c', harness='h_polygon_wrapper',
          targets=[dict(tu=UT, qual='WorldBuilder::Utilities::polygon_contains_point')],
          aliases=ALIASES, stub=[FN], nothrow=[FN], replace=[FN], outline_fp='all', defines=dict(DEF), expect_fail=['REACHABILITY-GUARD']),
@@ -88,6 +91,22 @@ def native_oracle(witness, work, search_seed=None):
     cyclically interpolated rotation angle (the short way round), evaluated independently; area feature = closed polygon x closed depth range"""
     import oracle
     rnd = random.Random(search_seed or 1)
+    # a plume whose cross sections have no area (semi-major axis 0) contains no point
+    for axes, eccs in [([0.0, 0.0], [0.5, 0.5]), ([30e3, 30e3], [1.0, 1.0])]:
+        text = json.dumps({"version": "1.1", "coordinate system": {"model": "cartesian"}, "features": [
+            {"model": "plume", "name": "P", "min depth": 5e3, "max depth": 120e3, "coordinates": [[50e3, 50e3], [50e3, 50e3]],
+             "cross section depths": [20e3, 100e3], "semi-major axis": axes, "eccentricity": eccs, "rotation angles": [0, 0],
+             "composition models": [{"model": "uniform", "compositions": [0]}]}]})
+        q = oracle.Q(text, work, name='degenerate')
+        try:
+            if not q.construct_error:
+                for (x, y) in [(4500e3, 50e3), (50e3, 90e3), (60e3, 50e3)]:
+                    st, v = q.ask('c3 %r %r %r %r 0' % (x, y, 1000e3 - 60e3, 60e3))
+                    if st == 'OK' and float.fromhex(v[0]) > 0.5:
+                        return dict(status='violated', input=dict(semi_major_axis=axes, eccentricity=eccs, point=[x, y], depth=60e3),
+                                    detail='plume centred at (50 km, 50 km) with semi-major axis %s and eccentricity %s (cross sections without area): the point (%g km, %g km) at depth 60 km carries the plume composition' % (axes, eccs, x / 1e3, y / 1e3))
+        finally:
+            q.close()
     for trial in range(6):
         angs = rnd.choice([[10, 350], [350, 20], [100, 300], [300, 100], [45, 200], [200, 30]])
         ecc = rnd.choice([0.6, 0.8])
